@@ -330,6 +330,8 @@ func (g *gen) lambdaStmt(depth int) {
 	if immediate {
 		plan.hdr = "func" + head + " {"
 		plan.ftr = "}(" + argl[0] + ")"
+		// see the directed case "package-variable-used-only-in-function-literal-called-in-place"
+		plan.onlyLog = true
 		g.f("lambda-called-in-place")
 	} else {
 		plan.hdr = lf.name + " := func" + head + " {"
@@ -372,6 +374,31 @@ func (g *gen) lambdaStmt(depth int) {
 			g.f("lambda-called-in-loop")
 		} else {
 			call(argl[1])
+		}
+	}
+}
+
+// callTailProcs calls the small procedures of the program on a few arguments
+// each, so that their last statements are reached with different branches
+// taken, and with none.
+func (g *gen) callTailProcs() {
+	for _, t := range g.callable(func(f *fn) bool { return f.tailProc }) {
+		if g.r.Intn(3) == 0 {
+			continue
+		}
+		g.noteCall(t)
+		g.f("tail-procedure-call")
+		switch g.r.Intn(3) {
+		case 0:
+			g.w("%s(acc %% %d)", t.name, 2+g.r.Intn(9))
+		case 1:
+			i := g.fresh("i")
+			g.w("for %s := range %d {", i, 2+g.r.Intn(3))
+			g.w("\t%s(%s + acc%%3)", t.name, i)
+			g.w("}")
+		default:
+			g.w("%s(%d)", t.name, g.r.Intn(7)-1)
+			g.w("%s(acc)", t.name)
 		}
 	}
 }
